@@ -118,17 +118,24 @@ def generate():
         if len(tries) != 1:
             raise ShapeError("_run: expected one try/finally")
         fb = tries[0].finalbody
+
+        def is_writer_reset(st):
+            return isinstance(st, ast.Assign) and isinstance(st.value, ast.Constant) and st.value.value is None and any(
+                isinstance(t, ast.Attribute) and t.attr == "writer" and isinstance(t.value, ast.Name) and t.value.id == "self" for t in st.targets)
         clears_writer = False
         calls_cleanup = False
-        for s in fb:       # top level of the finally only: must be unconditional
-            if isinstance(s, ast.Assign) and isinstance(s.value, ast.Constant) and s.value.value is None:
-                for t in s.targets:
-                    if isinstance(t, ast.Attribute) and t.attr == "writer" and isinstance(t.value, ast.Name) and t.value.id == "self":
-                        clears_writer = True
+        seen_await = False
+        for s in fb:       # top level of the finally only: must be unconditional; order matters
+            if any(isinstance(n, ast.Await) for n in ast.walk(s)):
+                seen_await = True
+            if is_writer_reset(s) and not seen_await and not calls_cleanup:
+                clears_writer = True      # before the futures are failed and before on_close is awaited
             if isinstance(s, ast.Expr) and isinstance(s.value, ast.Call) and isinstance(s.value.func, ast.Attribute) \
-                    and s.value.func.attr == "_cleanup_pending_responses":
+                    and s.value.func.attr == "_cleanup_pending_responses" and not seen_await:
                 calls_cleanup = True
-        return clears_writer, calls_cleanup
+        awaits = [n.lineno for n in ast.walk(tries[0]) if isinstance(n, ast.Await) and n.lineno >= fb[0].lineno]
+        late = any(is_writer_reset(n) and awaits and n.lineno > max(awaits) for n in ast.walk(fn))
+        return clears_writer, calls_cleanup, late
 
     def server_flags():
         m = astlib.module("klongpy/sys_fn_ipc.py")
@@ -161,7 +168,7 @@ def generate():
     cf, why1 = astlib.try_flag(cleanup_flags)
     rf, why2 = astlib.try_flag(run_flags)
     snapshot, clears = cf if cf is not None else (False, False)
-    clears_writer, calls_cleanup = rf if rf is not None else (False, False)
+    clears_writer, calls_cleanup, late_reset = rf if rf is not None else (False, False, False)
     if why1:
         out.append("(* _cleanup_pending_responses shape not recognised: %s *)" % why1)
     if why2:
@@ -169,6 +176,7 @@ def generate():
     out.append("Definition cleanup_iterates_snapshot : bool := %s." % astlib.coq_bool(snapshot))
     out.append("Definition finally_clears_writer : bool := %s." % astlib.coq_bool(clears_writer))
     out.append("Definition finally_cleans_pending : bool := %s." % astlib.coq_bool(clears and calls_cleanup))
+    out.append("Definition writer_cleared_after_on_close : bool := %s." % astlib.coq_bool(late_reset))
     def callback_flags():
         m = astlib.module("klongpy/sys_fn_ipc.py")
         cls = astlib.find_class(m, "TcpServerConnectionHandler")
@@ -230,9 +238,22 @@ def generate():
 CUT_CLASSES = ("between", "id", "len", "body")
 
 
-def model_steps(step):
-    """harness step -> list of model steps (the first one decides whether the harness step is enabled)"""
+def model_steps(step, park=False):
+    """harness step -> list of model steps (the first one decides whether the harness step is enabled).
+    park: the on_error / on_close callbacks park on harness gates (steps errdone / closedone release them);
+    otherwise they do not yield and the model settles at once"""
+    ms = _model_steps(step)
+    if park:
+        return ms
+    return [["settle"] if m == ["cleanall"] and step[0] not in ("cutpause",) else m for m in ms]
+
+
+def _model_steps(step):
     op = step[0]
+    if op == "errdone":
+        return [["errdone"], ["cleanall"]]
+    if op == "closedone":
+        return [["closedone"]]
     if op == "connect":
         return [["connect", 1 if step[1] == "ok" else 0], ["cleanall"]]
     if op == "invoke":
@@ -252,7 +273,7 @@ def model_steps(step):
     if op == "reset":
         return [["reset"], ["cleanall"]]
     if op == "cutpause":
-        return [["cut"]] + [["clean"]] * step[1]
+        return [["cut"], ["errdone"]] + [["clean"]] * step[1]
     if op == "resume":
         return [["cleanall"]]
     raise ValueError(op)
@@ -261,7 +282,7 @@ def model_steps(step):
 def model_request(script, steps=None):
     ms = []
     for st in (script["steps"] if steps is None else steps):
-        ms += model_steps(st)
+        ms += model_steps(st, script.get("park", False))
         ms.append(["collect"])
     return sx(["play", c0_of(script), [1 if c else 0 for c in script["calls"]], ms])
 
@@ -283,10 +304,10 @@ def wire_request(script, r):
             for kind, idx, data in r["wire"]:
                 if idx == i:
                     items.append(["eof"] if kind == "eof" else ["chunk", list(bytes.fromhex(data))])
-            items.append(["cleanall"])
+            items.append(["cleanall"] if script.get("park") else ["settle"])
         else:
-            for m in model_steps(st):
-                items.append(m if m == ["cleanall"] else ["l", m])
+            for m in model_steps(st, script.get("park", False)):
+                items.append(m if m in (["cleanall"], ["settle"]) else ["l", m])
         items.append(["collect"])
     return sx(["wplay", c0_of(script), [1 if c else 0 for c in script["calls"]], table, items])
 
@@ -296,12 +317,12 @@ def effective(script, taken):
     out = []
     i = 0
     for st in script["steps"]:
-        n = len(model_steps(st))
+        n = len(model_steps(st, script.get("park", False)))
         if taken[i]:
             out.append(st)
         i += n + 1      # + the collect marker
     return {"calls": script["calls"], "steps": out, "tag": script.get("tag", ""), "provider": script.get("provider", "rw"),
-            "callbacks": bool(script.get("callbacks"))}
+            "callbacks": bool(script.get("callbacks")), "park": bool(script.get("park"))}
 
 
 def finale(rng, n, answer=True, final_cut=True):
@@ -361,6 +382,31 @@ def gen_scripts(rng, tier):
         provider = provider or ("hp" if rng.random() < 0.3 else "rw")
         S.append({"calls": list(calls), "steps": ([["connect", "ok"]] if connected else []) + steps, "tag": tag, "provider": provider,
                   "callbacks": rng.random() < 0.25})
+
+    # P. awaited callbacks that really wait: on_error / on_close park on a gate; calls run inside the two windows
+    #    (handler awaiting on_error: nothing torn down yet; finally awaiting on_close: writer reset, futures failed)
+    pv = []
+    for n in (1, 2, 3):
+        for v in itertools.product(STAGES[:4], repeat=n):
+            for loss in ("cut", "reset", "pushfail", "closereq"):
+                pv.append((v, loss))
+    if quick:
+        rng.shuffle(pv)
+        pv = pv[:90]
+    for v, loss in pv:
+        n = len(v)
+        pre = interleave(rng, [prefix_for(k, v[k]) for k in range(n)])
+        lstep = {"cut": ["cut", rng.choice(CUT_CLASSES), None], "reset": ["reset"], "pushfail": ["push", "fail"], "closereq": ["closereq"]}[loss]
+        rest = [[["invoke", k], ["reg", k], ["send", k]] for k in range(n)]
+        # split what is left of every call between the two windows and the time after
+        w1, w2, w3 = [], [], []
+        for k in range(n):
+            a = rng.randint(0, 3)
+            b = rng.randint(a, 3)
+            w1.append(rest[k][:a]); w2.append(rest[k][a:b]); w3.append(rest[k][b:])
+        steps = pre + [lstep] + interleave(rng, w1) + [["errdone"]] + interleave(rng, w2) + [["closedone"]] + interleave(rng, w3)
+        S.append({"calls": [False] * n, "steps": [["connect", "ok"]] + steps, "tag": "callback-window",
+                  "provider": "hp" if rng.random() < 0.3 else "rw", "callbacks": False, "park": True})
 
     # H. calls racing run_client(): before connect() has returned, which then succeeds or raises KlongIPCCreateConnectionException
     hv = []
@@ -685,7 +731,18 @@ def child_main():
                         return await ipc.ReaderWriterConnectionProvider.connect(self2)
                 self.provider = GatedRW(self.reader, self.wstub, "mem", 0)
             cbs = {}
-            if self.script.get("callbacks"):
+            if self.script.get("park"):
+                box2 = []
+                self.on_io(lambda: box2.extend([asyncio.Event(), asyncio.Event()]))
+                self.cb_err, self.cb_close = box2
+
+                async def on_error_p(client, e):
+                    await env.cb_err.wait()
+
+                async def on_close_p(client):
+                    await env.cb_close.wait()
+                cbs = {"on_error": on_error_p, "on_close": on_close_p}
+            elif self.script.get("callbacks"):
                 # application callbacks that fail (once the client is connected): _run must contain them
                 async def on_error(client, e):
                     if env.connected_once:
@@ -792,7 +849,10 @@ def child_main():
         def step(self, st):
             op = st[0]
             self.step_index += 1
-            if op == "connect":
+            if op in ("errdone", "closedone"):
+                self.on_io((self.cb_err if op == "errdone" else self.cb_close).set)
+                self.quiesce()
+            elif op == "connect":
                 self.connect_fail = st[1] != "ok"
                 if self.connect_fail:
                     self.wstub.closing = True     # ReaderWriterConnectionProvider.connect raises when the transport is closing
@@ -901,6 +961,9 @@ def child_main():
                         break
                 self.pause_after = None
                 self.release_io.set()
+                if self.script.get("park"):
+                    self.on_io(self.cb_err.set)
+                    self.on_io(self.cb_close.set)
                 # nobody stays parked at a harness gate (only happens when the implementation left the model's path)
                 with self.lock:
                     for k in self.threads:
@@ -1355,7 +1418,7 @@ def evaluate(chk, scripts, label="scripts"):
     # de-duplicate
     seen, uniq = set(), []
     for s in eff:
-        key = json.dumps([s["calls"], s["steps"], s.get("provider"), s.get("callbacks")])
+        key = json.dumps([s["calls"], s["steps"], s.get("provider"), s.get("callbacks"), s.get("park")])
         if key not in seen:
             seen.add(key)
             uniq.append(s)
@@ -1455,9 +1518,9 @@ def kloop_model_request(spec):
         if st[0] in ("kcall", "tcall"):
             ms += [["invoke", st[1]], ["reg", st[1]], ["sched", st[1]], ["send", st[1]]]
         elif st[0] == "resp":
-            ms += [["resp", st[1], 1], ["cleanall"]]
+            ms += [["resp", st[1], 1], ["settle"]]
         elif st[0] in ("cut", "reset", "closereq"):
-            ms += [[st[0]], ["cleanall"]]
+            ms += [[st[0]], ["settle"]]
         else:
             continue
         ms.append(["collect"])
@@ -1643,6 +1706,7 @@ def run(tier, replay=None):
              "environment steps (response frames in every arrival order and fragmentation, duplicates, server pushes, EOF inside id/length/body/"
              "between frames, reset, server-initiated close, failing dispatch, close() acks, a registration inside the cleanup loop), each played "
              "out to a maximal run; calls racing run_client() before connect() returns (which then succeeds or raises), with both providers; failing on_error/on_close callbacks in a quarter of the scripts; "
+             "on_error/on_close callbacks parked on harness gates with calls issued inside the handler window and inside the finally window (family callback-window); "
              "every script without a cleanup pause is also replayed at BYTE level (the chunks actually fed, decoded by C13's reader inside the model); server half = request sequences on a real handle_client/run_server with a real interpreter, one request kind per evaluation "
              "outcome class (values, functions, unpicklable value, KlongException, syntax error, ValueError, user Exception, arity error, unknown symbol, KeyError, "
              "StopIteration, StopIteration subclass, exhausted iterator, BaseException) each followed by a further request; klong-loop callers = real handle_client with .srv.* handlers, "
